@@ -3,7 +3,7 @@ handed to the implementation are exactly the rationals handed to the Coq model."
 import numpy as np
 
 KINDS = ["generic", "generic", "generic", "rankdef", "duprows", "zerorows", "allzero", "intties",
-         "illcond", "negative_lead", "sparseint", "sparseint", "nearrank", "localized", "localized"]
+         "illcond", "negative_lead", "sparseint", "sparseint", "nearrank", "nearrank", "localized", "localized"]
 
 
 def shape(rng, nmax=9, mmax=5):
